@@ -447,8 +447,13 @@ class Transaction:
             if rdataset.rdclass != self.manager.get_class():
                 raise ValueError(f"{method} has objects of wrong RdataClass")
             if rdataset.rdtype == dns.rdatatype.SOA:
-                _, _, origin = self._origin_information()
-                if name != origin:
+                absolute_origin, _, origin = self._origin_information()
+                # The origin may be given in either spelling, like any other name.
+                if (
+                    name != origin
+                    and name != absolute_origin
+                    and name != dns.name.empty
+                ):
                     raise ValueError(f"{method} has non-origin SOA")
             self._raise_if_not_empty(method, args)
             if not replace:
